@@ -2,7 +2,8 @@
    improvement flags, and that the oracle used on observed behaviour (Keeper.holds_b) decides
    the same notion of improvement as the model. *)
 From Coq Require Import List Bool Arith QArith Lia Lqa Permutation Sorted.
-From GolemV Require Import Fitness.Fitness Fitness.FitnessProofs Archive.Hof Archive.Pareto Archive.Keeper.
+From GolemV Require Import Fitness.Fitness Fitness.FitnessProofs Archive.Hof Archive.Pareto Archive.Keeper
+  Archive.FitOrder Archive.HofProofs.
 Import ListNotations.
 Local Open Scope nat_scope.
 
@@ -353,4 +354,85 @@ Proof.
           apply in_map_iff. exists p. split; [reflexivity|exact Hp']. }
         split; [apply G; left; reflexivity|]. intros x Hx. apply in_map_iff in Hx.
         destruct Hx as (c & <- & Hc'). apply G. right. exact Hc'.
+Qed.
+
+(* ====================== k = 1: improved <-> the best individual changed ====================== *)
+Lemma lex_witness l r :
+  lex_lt_b l r = true -> exists j a b, nth_error l j = Some a /\ nth_error r j = Some b /\ (a < b)%Q.
+Proof.
+  revert r. induction l as [|x l IH]; intros [|y r]; simpl; intros H; try discriminate.
+  destruct (Qeq_bool x y) eqn:E.
+  - destruct (IH r H) as (j & a & b & Ha & Hb & L). exists (S j), a, b. repeat split; assumption.
+  - exists 0, x, y. repeat split. apply Qlt_b_iff, H.
+Qed.
+
+Lemma identical_nth l r j a b :
+  identical l r = true -> nth_error l j = Some a -> nth_error r j = Some b -> (a == b)%Q.
+Proof.
+  unfold identical. revert r j. induction l as [|x l IH]; intros [|y r] [|j]; simpl; intros H Ha Hb; try discriminate.
+  - injection Ha as <-. injection Hb as <-. apply andb_true_iff in H as [H _]. apply Qeq_bool_iff, H.
+  - apply andb_true_iff in H as [_ H]. eapply IH; eassumption.
+Qed.
+
+Lemma worst_single j v : worst_metric j [v] = nth_error v j.
+Proof. unfold worst_metric. simpl. destruct (nth_error v j); reflexivity. Qed.
+
+Theorem hof_improved_iff_changed n pops pop :
+  1 <= n -> shown_ok (concat (pops ++ [pop])) ->
+  (forall s, In s (concat (pops ++ [pop])) -> length (vals (fitness s)) = n) ->
+  let st := keeper_run (AHof 1) n (keeper_init n) pops in
+  let st' := keeper_append (AHof 1) n st pop in
+  any_improved st' = true <->
+  match items (k_arch st), items (k_arch st') with
+  | [], _ :: _ => True
+  | h :: _, h' :: _ => identical (vals (fitness h)) (vals (fitness h')) = false
+  | _, [] => False
+  end.
+Proof.
+  intros Hn Hok Hlen st st'.
+  assert (EA : k_arch st = hof_runs 1 empty_arch pops) by (unfold st; rewrite keeper_arch; reflexivity).
+  assert (EA' : k_arch st' = hof_runs 1 empty_arch (pops ++ [pop])).
+  { unfold st'. simpl. rewrite EA. unfold hof_runs, hof_run. rewrite fold_left_app. reflexivity. }
+  assert (Hok1 : shown_ok (concat pops)).
+  { rewrite concat_app in Hok. apply (shown_ok_prefix _ _ Hok). }
+  destruct (hof_inv 1 pops (le_n 1) Hok1) as (_ & _ & _ & Z & _).
+  destruct (hof_inv 1 (pops ++ [pop]) (le_n 1) Hok) as (_ & _ & _ & Z' & _).
+  destruct (hof_k_best 1 (pops ++ [pop]) (le_n 1) Hok) as (Inc' & _).
+  destruct (hof_k_best 1 pops (le_n 1) Hok1) as (Inc & _).
+  unfold st'. rewrite any_improved_iff.
+  change (arch_update (AHof 1) (k_arch st) pop) with (k_arch (keeper_append (AHof 1) n st pop)).
+  fold st'. rewrite EA'. unfold rows_of. rewrite EA.
+  set (A := hof_runs 1 empty_arch pops) in *. set (A' := hof_runs 1 empty_arch (pops ++ [pop])) in *.
+  destruct (items A) as [|h rest] eqn:EI.
+  - (* nothing archived before *)
+    destruct (items A') as [|h' rest'] eqn:EI'.
+    + split; [|intros []]. intros (j & _ & H). simpl in H. discriminate.
+    + split; [intros _; exact I|]. intros _.
+      assert (rest' = []) by (destruct rest'; [reflexivity|simpl in Z'; lia]). subst rest'.
+      exists 0. split; [lia|]. simpl map. rewrite worst_single.
+      assert (L : length (vals (fitness h')) = n) by (apply Hlen, Inc'; left; reflexivity).
+      destruct (nth_error (vals (fitness h')) 0) eqn:N; [reflexivity|].
+      apply nth_error_None in N. lia.
+  - assert (rest = []) by (destruct rest; [reflexivity|simpl in Z; lia]). subst rest.
+    destruct (hof_best_never_worse 1 pops pop h [] (le_n 1) Hok EI) as (h' & rest' & EI' & B).
+    fold A' in EI'. rewrite EI' in *.
+    assert (rest' = []) by (destruct rest'; [reflexivity|simpl in Z'; lia]). subst rest'.
+    simpl map. 
+    assert (Hh : In h (concat (pops ++ [pop]))).
+    { rewrite concat_app. apply in_or_app. left. apply Inc. left. reflexivity. }
+    assert (Hh' : In h' (concat (pops ++ [pop]))) by (apply Inc'; left; reflexivity).
+    pose proof (Hlen h Hh) as L. pose proof (Hlen h' Hh') as L'.
+    rewrite (better_is_lex _ h h' Hok Hh Hh') in B.
+    split.
+    + intros (j & Hj & H). rewrite !worst_single in H.
+      apply improved_iff in H. destruct H as [[H _]|(pv & cv & Ep & Ec & Lt)].
+      * apply nth_error_None in H. lia.
+      * destruct (identical (vals (fitness h)) (vals (fitness h'))) eqn:Id; [|reflexivity]. exfalso.
+        pose proof (identical_nth _ _ j pv cv Id Ep Ec) as Q. rewrite Q in Lt. apply (Qlt_irrefl _ Lt).
+    + intros Id.
+      destruct (lex_total (vals (fitness h)) (vals (fitness h')) ltac:(lia) Id) as [X|X]; [congruence|].
+      destruct (lex_witness _ _ X) as (j & a & b & Ha & Hb & Lt).
+      exists j. split.
+      * assert (j < length (vals (fitness h'))) by (apply nth_error_Some; congruence). lia.
+      * rewrite !worst_single, Ha, Hb. simpl. apply Qlt_b_iff, Lt.
 Qed.
